@@ -23,7 +23,7 @@ import (
 //	ff <height> <idx>              -> addr candKey candId coin value moveTo
 //	p <c0> <c1>                    -> id r0 r1
 //	o <id>                         -> c0 c1 isSale v0 v1 owner height
-//	v <pubkey>                     -> totalBip accum absentBits
+//	v <pubkey>                     -> totalBip accum absentBits tmAddress
 //	uc <hash>                      -> 1
 //	h <height> <pubkey>            -> 1
 //	cv <height> <pubkey>           -> hash-of-commission
@@ -104,17 +104,7 @@ func DumpState(st *types.AppState) Dump {
 		}
 	}
 	for _, v := range st.Validators {
-		bits := ""
-		if v.AbsentTimes != nil {
-			for i := 0; i < int(v.AbsentTimes.Size()); i++ {
-				if v.AbsentTimes.GetIndex(i) {
-					bits += "1"
-				} else {
-					bits += "0"
-				}
-			}
-		}
-		d["v "+hexs(v.PubKey[:])] = fmt.Sprintf("%s %s %s", v.TotalBipStake, v.AccumReward, bits)
+		d["v "+hexs(v.PubKey[:])] = validatorLine(v.TotalBipStake, v.AccumReward, v.AbsentTimes, v.PubKey)
 	}
 	for _, u := range st.UsedChecks {
 		d["uc "+string(u)] = "1"
@@ -205,4 +195,19 @@ func Delta(prev, cur Dump) []string {
 	}
 	sort.Strings(out)
 	return out
+}
+
+func validatorLine(total, accum string, abs *types.BitArray, pk types.Pubkey) string {
+	bits := ""
+	if abs != nil {
+		for i := 0; i < int(abs.Size()); i++ {
+			if abs.GetIndex(i) {
+				bits += "1"
+			} else {
+				bits += "0"
+			}
+		}
+	}
+	a := tmAddrOf(pk)
+	return fmt.Sprintf("%s %s %s %x", total, accum, bits, a[:])
 }
